@@ -134,12 +134,15 @@ class Walker(ast.NodeVisitor):
             fo("parquet-writer", "w", dotted(node.args[0]) if node.args else (dotted(self.kw(node, "where")) if self.kw(node, "where") else "?"))
         elif name == "sqlite3.connect":
             fo("sqlite", "rw", dotted(node.args[0]) if node.args else "?")
-        elif last in ("unlink", "remove") and (name.startswith("os.") or isinstance(node.func, ast.Attribute)):
-            fo("unlink", "-", dotted(node.func.value) if isinstance(node.func, ast.Attribute) else "?")
+        elif last == "unlink" or name in ("os.remove", "os.unlink"):
+            fo("unlink", "-", dotted(node.args[0]) if node.args else
+               (dotted(node.func.value) if isinstance(node.func, ast.Attribute) else "?"))
         elif last in ("glob", "rglob", "iglob"):
             pat = self.lit(node.args[-1]) if node.args else None
             fo("glob-sorted" if self.wrapped_in(("sorted",)) else "glob", "-", pat or "?")
-        elif name in ("shutil.move", "os.rename", "os.replace") or last == "rename" and isinstance(node.func, ast.Attribute):
+        elif name in ("shutil.move", "shutil.copy", "shutil.copyfile", "os.rename", "os.replace") or (
+                last in ("rename", "replace") and isinstance(node.func, ast.Attribute)
+                and "path" in dotted(node.func.value).lower() and not node.keywords):
             fo("move", "-", ",".join(dotted(a) for a in node.args))
         elif last in ("mkdir", "makedirs"):
             fo("mkdir", "-", dotted(node.func.value) if isinstance(node.func, ast.Attribute) else "?")
@@ -182,10 +185,11 @@ def generate(repo: Path, outdir: Path, write_if_changed):
     eff += "\n]\n\nend Mk.Generated\n"
     write_if_changed(outdir / "Effects.lean", eff)
     fo = hdr + ("structure FileOp where\n  file : String\n  func : String\n  line : Nat\n  kind : String\n"
-                "  mode : String\n  target : String\n  deriving Repr, DecidableEq\n\n"
+                "  mode : String\n  target : String\n  append : Bool\n  deriving Repr, DecidableEq\n\n"
                 "def fileOps : List FileOp := [\n")
     fo += ",\n".join(
-        f"  ⟨{lean_str(f)}, {lean_str(fn)}, {ln}, {lean_str(k)}, {lean_str(m)}, {lean_str(t)}⟩"
+        f"  ⟨{lean_str(f)}, {lean_str(fn)}, {ln}, {lean_str(k)}, {lean_str(m)}, {lean_str(t)}, "
+        f"{'true' if ('a' in m or m == '?') else 'false'}⟩"
         for f, fn, ln, k, m, t in fileops)
     fo += "\n]\n\nend Mk.Generated\n"
     write_if_changed(outdir / "FileOps.lean", fo)
